@@ -3,26 +3,211 @@
 use super::c02::{packaging_opt, run_dir_case, Case};
 use crate::dirgen::*;
 use crate::engine::*;
+use crate::indep::DVal;
+use crate::{ensure, fail};
+use jubako as jbk;
+use jbk::creator::schema;
+use jbk::reader::Range;
 use proptest::prelude::*;
+use serde::{Deserialize, Serialize};
+use std::collections::HashMap;
 
 pub struct C15;
 
+/// A forest stored in a store SORTED ON THE REFERENCE ITSELF: key = (position of the parent,
+/// name). The final order is a fixed point the creator reaches by re-sorting; the model cannot
+/// predict it without repeating that algorithm, so the oracle is a validity predicate over what
+/// was stored (self-consistency), not an expected order.
+#[derive(Serialize, Deserialize, Clone, Debug)]
+pub struct TreeSpec {
+    /// parent of node i = pick(sel, i + 1) among nodes 0..=i (i itself: a root, self reference)
+    pub parents: Vec<u16>,
+    /// 0 natural (parents first), 1 reversed (children first), 2.. shuffled with this seed
+    pub order: u32,
+}
+
+#[derive(Serialize, Deserialize, Clone, Debug)]
+pub enum C15Case {
+    Dir(Case),
+    Tree(TreeSpec),
+}
+
+fn run_tree(t: &TreeSpec, ctx: &Ctx, info: &mut CaseInfo) -> Result<(), Failure> {
+    let n = t.parents.len();
+    let parent: Vec<usize> = t.parents.iter().enumerate().map(|(i, s)| pick(*s, i + 1)).collect();
+    let mut order: Vec<usize> = (0..n).collect();
+    match t.order {
+        0 => {}
+        1 => order.reverse(),
+        seed => {
+            let mut x = seed as u64 | 1;
+            for i in (1..n).rev() {
+                x = splitmix(x);
+                order.swap(i, (x % (i as u64 + 1)) as usize);
+            }
+        }
+    }
+    let depth = |mut i: usize| {
+        let mut d = 0;
+        while parent[i] != i {
+            i = parent[i];
+            d += 1;
+        }
+        d
+    };
+    let maxd = (0..n).map(depth).max().unwrap_or(0);
+    info.class(format!("tree-depth:{}", maxd.min(4)));
+    info.class(match t.order {
+        0 => "tree-order:parents-first",
+        1 => "tree-order:children-first",
+        _ => "tree-order:shuffled",
+    });
+    let sch = schema::Schema::new(
+        schema::CommonProperties::new(vec![schema::Property::new_uint("c0"), schema::Property::new_uint("c1"), schema::Property::new_uint("c2")]),
+        vec![],
+        Some(vec!["c0", "c1"]),
+    );
+    let mut es = Box::new(EStore::new(sch, None));
+    let vows: Vec<jbk::Vow<jbk::EntryIdx>> = (0..n).map(|_| jbk::Vow::new(jbk::EntryIdx::from(0))).collect();
+    let bound_of: Vec<jbk::Bound<jbk::EntryIdx>> = vows.iter().map(|v| v.bind()).collect();
+    let mut vows: Vec<Option<jbk::Vow<jbk::EntryIdx>>> = vows.into_iter().map(Some).collect();
+    let mut handles: Vec<(usize, jbk::Bound<jbk::EntryIdx>)> = vec![];
+    for node in &order {
+        let mut hm: HashMap<&'static str, jbk::Value> = HashMap::new();
+        hm.insert("c0", jbk::Value::UnsignedWord(bound_of[parent[*node]].clone().into()));
+        hm.insert("c1", jbk::Value::Unsigned(1000 + *node as u64)); // the name: unique
+        hm.insert("c2", jbk::Value::Unsigned(*node as u64)); // the identity
+        let e = EntryType::new_from_schema_idx(&es.schema, vows[*node].take().unwrap(), None, hm);
+        handles.push((*node, es.add_entry(e)));
+    }
+    let mut dp = jbk::creator::DirectoryPackCreator::new(jbk::PackId::from(0), crate::gen::vendor(), Default::default());
+    let sid = dp.add_entry_store(es);
+    dp.create_index("tree", Default::default(), 0.into(), sid, (n as u32).into(), jbk::EntryIdx::from(0).into());
+    let path = ctx.path("tree.jbkd");
+    let mut file = std::fs::OpenOptions::new().read(true).write(true).create(true).truncate(true).open(&path).unwrap();
+    match dp.finalize() {
+        Ok(f) => {
+            if let Err(e) = f.write(&mut file) {
+                fail!("dir-write-error", "{e}");
+            }
+        }
+        Err(e) => fail!("dir-finalize-error", "{e}"),
+    }
+    drop(file);
+    let dpk = match open_directory_pack(&path) {
+        Ok(d) => d,
+        Err(e) => fail!("dir-unreadable", "{e}"),
+    };
+    let estorage = dpk.create_entry_storage();
+    let vstorage = dpk.create_value_storage();
+    let oi = match open_index(&dpk, &|ix| ix.get_store(&estorage), &vstorage, "tree") {
+        Ok(o) => o,
+        Err(e) => fail!("store-unreadable", "{e}"),
+    };
+    ensure!(oi.count() == n, "window-count", "tree index exposes {} entries, {n} written", oi.count());
+    let mut pos_of = vec![usize::MAX; n];
+    let mut rows: Vec<(u64, u64, u64)> = vec![];
+    for p in 0..n {
+        let (_, vals) = match oi.entry(p as u32) {
+            Ok(Some(e)) => e,
+            other => fail!("entry-error", "tree entry {p}: {:?}", other.map(|o| o.is_some())),
+        };
+        let g = |k: &str| match vals.get(k) {
+            Some(DVal::U(x)) => Ok(*x),
+            other => Err(Failure::new("value-kind-mismatch", format!("tree entry {p} property {k}: {other:?}"))),
+        };
+        let (c0, c1, c2) = (g("c0")?, g("c1")?, g("c2")?);
+        ensure!((c2 as usize) < n && pos_of[c2 as usize] == usize::MAX, "tree-not-a-permutation", "tree entry {p} carries identity {c2} (duplicate or out of range)");
+        pos_of[c2 as usize] = p;
+        rows.push((c0, c1, c2));
+    }
+    for (p, (c0, c1, c2)) in rows.iter().enumerate() {
+        let node = *c2 as usize;
+        ensure!(*c1 == 1000 + node as u64, "unsigned-value-mismatch", "tree entry {p}: name {c1} for node {node}");
+        ensure!(
+            *c0 as usize == pos_of[parent[node]],
+            "tree-reference-not-final-position",
+            "tree entry {p} (node {node}): stored reference {c0}, its parent (node {}) is finally at {}",
+            parent[node],
+            pos_of[parent[node]]
+        );
+        if p > 0 {
+            let prev = (rows[p - 1].0, rows[p - 1].1);
+            ensure!(prev < (*c0, *c1), "tree-not-sorted", "tree entries {} and {p} are not in increasing key order: {:?} then {:?}", p - 1, prev, (c0, c1));
+        }
+    }
+    for (node, b) in &handles {
+        let got = b.get().into_u32() as usize;
+        ensure!(got == pos_of[*node], "bound-final-position", "handle of node {node} reports position {got}, the entry is finally at {}", pos_of[*node]);
+    }
+    // lookup by (parent position, name): binary and linear
+    for p in (0..n).step_by((n / 40).max(1)) {
+        let key = vec![("c0", DVal::U(rows[p].0)), ("c1", DVal::U(rows[p].1))];
+        for ordered in [true, false] {
+            let c = KeyCmp { builder: &oi.builder, keys: key.clone(), ordered };
+            match oi.index.find(&c) {
+                Ok(Some(i)) if i.into_u32() as usize == p => {}
+                other => fail!(if ordered { "find-present-ordered" } else { "find-present-linear" }, "tree: find(key of entry {p}, ordered={ordered}) = {:?}", other.map(|o| o.map(|i| i.into_u32())).map_err(|e| e.to_string())),
+            }
+        }
+    }
+    let moved = handles.iter().enumerate().filter(|(k, (node, _))| pos_of[*node] != *k).count();
+    if moved > 0 {
+        info.class("referenced-entry-moved");
+    }
+    info.class("tree:reference-in-sort-key");
+    info.evals = (3 * n as u64).max(1);
+    let _ = std::fs::remove_file(&path);
+    Ok(())
+}
+
 impl Property for C15 {
-    type Case = Case;
+    type Case = C15Case;
     const ID: &'static str = "C15";
 
     fn rule() -> String {
-        "proptest-generated directory specs with Ref columns (unsigned column bound, through Vow/Bound created before any entry is added, to the position of another entry of the same store): forward, backward and self references, chains, constant Ref columns (all rows reference one entry), sorted (1-3 keys) and unsorted stores, 0..600 entries and 2000..6000 entries (parallel sort and parallel index assignment). Oracle: model final positions (independent sort of the distinct keys): the value read back for a Ref column equals the final position of its target (real reader and independent decoder), and every Bound returned by add_entry reports the final position of its entry after finalisation. Non-trivial = a sorted store in which at least one referenced entry moved from its insertion position; distinct by (graph classes, schema, size).".into()
+        "(i) proptest-generated directory specs with Ref columns (unsigned, and signed SRef, column bound, through Vow/Bound created before any entry is added, to the position of another entry of the same store): forward, backward and self references, chains, constant Ref columns (all rows reference one entry), sorted (1-3 keys) and unsorted stores, 0..600 entries and 2000..6000 entries (parallel sort and parallel index assignment). Oracle: model final positions (independent sort of the distinct keys): the value read back for a Ref column equals the final position of its target (real reader and independent decoder), and every Bound returned by add_entry reports the final position of its entry after finalisation. (ii) forests stored in a store sorted ON the reference itself (key = position of the parent, then a unique name; 1..120 nodes, chains and bushy trees, inserted parents-first, children-first or shuffled): the final order is a fixed point of the creator's re-sort loop, so the oracle is a validity predicate over what was stored: the identities form a permutation, every stored reference equals the final position of the parent, keys are strictly increasing, every Bound reports the final position, binary and linear lookup of (parent position, name) find the entry. Non-trivial = a sorted store in which at least one referenced entry moved from its insertion position; distinct by (graph classes, schema, size).".into()
     }
 
     fn cases(tier: Tier) -> u32 {
         match tier {
             Tier::Quick => 3200,
-            Tier::Thorough => 40000,
+            Tier::Thorough => 250000,
         }
     }
 
-    fn strategy(tier: Tier) -> BoxedStrategy<Case> {
+    fn strategy(tier: Tier) -> BoxedStrategy<C15Case> {
+        let tree = (prop::collection::vec(prop_oneof![2 => any::<u16>(), 1 => Just(u16::MAX), 1 => Just(0u16)], 1..120), prop_oneof![Just(0u32), Just(1u32), 2u32..1000])
+            .prop_map(|(parents, order)| C15Case::Tree(TreeSpec { parents, order }));
+        prop_oneof![
+            9 => Self::dir_strategy(tier).prop_map(C15Case::Dir),
+            1 => tree,
+        ]
+        .boxed()
+    }
+
+    fn fixed_cases(_tier: Tier) -> Vec<C15Case> {
+        // chains and bushy trees, children inserted first
+        let chain = |n: usize| TreeSpec { parents: (0..n).map(|i| if i == 0 { u16::MAX } else { ((i as u32 - 1) * 65536 / (i as u32 + 1) + 1) as u16 }).collect(), order: 1 };
+        vec![
+            C15Case::Tree(chain(3)),
+            C15Case::Tree(chain(6)),
+            C15Case::Tree(TreeSpec { parents: vec![u16::MAX, 0, 0, 20000, 20000, 40000, 40000, 50000, 60000], order: 1 }),
+            C15Case::Tree(TreeSpec { parents: vec![u16::MAX, 0, 0, 20000, 20000, 40000, 40000, 50000, 60000], order: 7 }),
+        ]
+    }
+
+    fn required_classes(_tier: Tier) -> Vec<&'static str> {
+        Self::required_classes_()
+    }
+
+    fn run(case: &C15Case, ctx: &Ctx) -> CaseResult {
+        Self::run_(case, ctx)
+    }
+}
+
+impl C15 {
+    fn dir_strategy(tier: Tier) -> BoxedStrategy<Case> {
         let dir = match tier {
             Tier::Quick => prop_oneof![
                 60 => dir_strategy(SizeClass::Small, SortMode::Sometimes, true, false),
@@ -52,12 +237,21 @@ impl Property for C15 {
             .boxed()
     }
 
-    fn required_classes(_tier: Tier) -> Vec<&'static str> {
-        vec!["has-refs", "ref:forward", "ref:backward", "ref:self", "ref:chain", "sorted", "referenced-entry-moved", "entries:thousands", "ref:constant-column"]
+    fn required_classes_() -> Vec<&'static str> {
+        vec!["tree:reference-in-sort-key", "tree-order:children-first", "kind:sref", "has-refs", "ref:forward", "ref:backward", "ref:self", "ref:chain", "sorted", "referenced-entry-moved", "entries:thousands", "ref:constant-column"]
     }
 
-    fn run(case: &Case, ctx: &Ctx) -> CaseResult {
+    fn run_(case: &C15Case, ctx: &Ctx) -> CaseResult {
         let mut info = CaseInfo::new();
+        let case = match case {
+            C15Case::Tree(t) => {
+                run_tree(t, ctx, &mut info)?;
+                info.nontrivial = info.classes.iter().any(|c| c == "referenced-entry-moved");
+                info.key = hash_str(&format!("tree|{:?}|{}", t.parents, t.order));
+                return Ok(info);
+            }
+            C15Case::Dir(c) => c,
+        };
         let (model, _) = run_dir_case(case, ctx, &mut info)?;
         let mut moved_ref = false;
         for sm in &model.stores {
